@@ -193,3 +193,17 @@ def hpd_dense(rng, n, kind='real', cond=50.0):
     q, _ = np.linalg.qr(a)
     ev = np.linspace(1.0, cond, n)
     return (q * ev) @ q.conj().T
+
+
+def admissible_ranks(rng, rd, cd=None, cap=None):
+    """random TT ranks for which every core can have full-rank unfoldings (r_j <= r_{j-1} n_{j-1}, r_j <= n_j r_{j+1});
+    this is the precondition under which Galerkin frames have full column rank (A-nonsingular)"""
+    d = len(rd)
+    n = [rd[i] * (cd[i] if cd else 1) for i in range(d)]
+    mr = max_ranks(rd, cd or [1] * d)
+    rk = [1] + [int(rng.integers(1, min(mr[j], cap or mr[j]) + 1)) for j in range(1, d)] + [1]
+    for j in range(1, d):
+        rk[j] = min(rk[j], rk[j - 1] * n[j - 1])
+    for j in range(d - 1, 0, -1):
+        rk[j] = min(rk[j], n[j] * rk[j + 1])
+    return rk
